@@ -888,3 +888,30 @@ package objects
 //@   sweep
 //@   mode nopanic=off
 //@   ensures app != nil
+
+// ================================================================ C08: preemption commits only complete, covering victim sets
+
+//@ func (sq *Queue) IncPreemptingResource(alloc *resources.Resource)
+//@   props C08
+//@   trusted "frame only: adds to Queue.preemptingResource on the queue and its ancestors"
+//@   assigns all Queue.preemptingResource
+
+//@ func (sq *Queue) GetQueueByAppID(appID string) (q *Queue)
+//@   props C08
+//@   trusted "lookup in the application-queue mapping: reads only"
+//@   assigns nothing
+
+// queue preemption commit: nothing is booked as preempting, announced or reserved before EVERY final victim has been
+// marked (a victim that turns out to be released aborts the attempt with all marks undone); the shortfall decision
+// must only count victims that are actually taken
+//@ func (p *Preemptor) TryPreemption() (res *AllocationResult, ok bool)
+//@   props C08 C07
+//@   sweep
+//@   mode nopanic=off
+//@   loop 2: invariant len(preemptedVictims) == rangeindex + 1 && rangeindex + 1 <= len(finalVictims)
+//@   loop 4: invariant len(preemptedVictims) == len(finalVictims)
+//@   at[allmarked] call objects.Queue.IncPreemptingResource#1: assert len(preemptedVictims) == len(finalVictims) && arg1 == victim.allocatedResource
+//@   at[announce] call objects.Application.notifyRMAllocationReleased#1: assert arg1 == finalVictims && len(preemptedVictims) == len(finalVictims)
+//@   at[once] call objects.Allocation.MarkTriggeredPreemption#1: assert arg0 == p.ask && len(preemptedVictims) == len(finalVictims)
+//@   at[marked] append preemptedVictims#1: assert elem == victim && victim.preempted && !victim.released
+//@   at[counted] call resources.Resource.AddTo#1: assert arg0 == victimsTotalResource && arg1 == victim.allocatedResource && len(finalVictims) > 0 && finalVictims[len(finalVictims) - 1] == victim
